@@ -10,7 +10,7 @@
              allocator's responses in the correspondence check.
    A = buffer address, C = capacity;  0 < A and A + C < 2^64 hold for every real buffer. *)
 From Coq Require Import ZArith List Bool.
-From Zix Require Import BumpModel BumpSpec BumpProofs BumpProofsSafe BumpProofsMore.
+From Zix Require Import BumpModel BumpSpec BumpProofs BumpProofsSafe BumpProofsMore BumpProofsPairs.
 Import ListNotations.
 Local Open Scope Z_scope.
 
@@ -92,6 +92,22 @@ Theorem spec_accepted_free_of_most_recent_means :
     o = OVoid /\ sp_front sp' = b_off b /\ sp_live sp' = remove_blk i (sp_live sp).
 Proof. exact spec_free_recent. Qed.
 Print Assumptions spec_accepted_free_of_most_recent_means.
+
+(* Because every new or resized block is checked against all live blocks, the live blocks are
+   pairwise apart after every accepted trace — for every such trace, from any allocator *)
+Theorem spec_accepted_trace_live_blocks_pairwise_apart :
+  forall A C tr sp',
+    spec_after A C 0 (spec_init A) tr = Some sp' -> ForallOrdPairs blk_apart (sp_live sp').
+Proof. exact spec_live_pairwise_apart. Qed.
+Print Assumptions spec_accepted_trace_live_blocks_pairwise_apart.
+
+(* ... in particular after every history of the model (every prefix of a history is a history) *)
+Theorem bump_live_blocks_pairwise_apart :
+  forall A C m0 rs, 0 < A -> 0 <= C -> A + C < 2 ^ 64 -> forallb req_ok rs = true ->
+    exists sp', spec_after A C 0 (spec_init A) (trace_of (bump_run A C m0 rs)) = Some sp' /\
+                ForallOrdPairs blk_apart (sp_live sp').
+Proof. exact bump_live_pairwise_apart. Qed.
+Print Assumptions bump_live_blocks_pairwise_apart.
 
 (* ------------------------------------------------------------------------------------------ *)
 (* The same facts stated directly about the model functions. *)
